@@ -1,5 +1,5 @@
 (* C02 - packet framing: ordered, exactly once, isolated, terminating.  Statements only. *)
-From RU Require Import Base Types Defs BitReader World Run FrameProofs RunProofs WorldProofs Layout LayoutProofs LayoutRoundTrip.
+From RU Require Import Base Types Defs BitReader World Run FrameProofs RunProofs WorldProofs Layout LayoutProofs LayoutRoundTrip TimeProofs EncodingCorollaries.
 
 (* every packet (payload < 2^32 bytes, any 32-bit type id, any timestamp bits) exactly once, in stream order, with
    exactly its type, timestamp and payload; the stream then ends cleanly *)
@@ -79,3 +79,15 @@ Example C02_example_header : vals_ok [KS 4; KU 2; KBin] [LZ (-5)%Z; LN 513%N; LB
   /\ parse_layout [KS 4; KU 2; KBin] (enc_layout [KS 4; KU 2; KBin] [LZ (-5)%Z; LN 513%N; LB [x01; x02; x03]] ++ [x09])%list
      = Ok [LZ (-5)%Z; LN 513%N; LB [x01; x02; x03]].
 Proof. exact example_header. Qed.
+
+(* "in stream order": the order is the position in the stream - no handler consults a packet's time stamp.  Two packet lists that agree in
+   types and payloads position by position are played to the same world, trace and outcome, whatever their stamps (equal, decreasing, NaN) *)
+Theorem C02_play_strict_ignores_time : forall St ps qs w, Forall2 same_but_time ps qs -> play_strict St w ps = play_strict St w qs.
+Proof. exact play_strict_ignores_time. Qed.
+Theorem C02_play_lenient_ignores_time : forall St ps qs w, Forall2 same_but_time ps qs -> play_lenient St w ps = play_lenient St w qs.
+Proof. exact play_lenient_ignores_time. Qed.
+Print Assumptions C02_play_strict_ignores_time.
+(* the framing is unambiguous: two lists of well-formed packets with the same stream bytes are the same list *)
+Theorem C02_enc_all_injective : forall ps1 ps2, Forall wf_packet ps1 -> Forall wf_packet ps2 -> enc_all ps1 = enc_all ps2 -> ps1 = ps2.
+Proof. exact enc_all_injective. Qed.
+Print Assumptions C02_enc_all_injective.
